@@ -20,6 +20,22 @@ CHECKS = {
    "Runtime monitor: seeded operation sequences on the real clusterState checked after every operation against a last-write-wins reference model, plus lagging/fresh observer synchronisation in the simulator.",
    "Reserved _internal: keys are not written by callers; single goroutine.",
    "runtime monitoring: reference-model oracle after every operation", "4/C17"),
+ "C11": (E1, "exploration",
+   "Runtime monitor over seeded simulator executions of the real membership code with a logical clock: per-step flag rules on every survivor (local node never flagged/removed, left only if the owner left, left never revived, flagged nodes scheduled for removal and outside the live set, routing status follows flags, no discovery from a digest marking the node left, sweeps remove exactly what is due) plus bounded crash/leave closures (forgotten by all within expiry + (N+3) detection periods, stays forgotten for two more expiry periods).",
+   "Failure detector replaced by a logical-clock implementation of the same interface (the real one is C12's subject); sequential scheduler; liveness restated as a bound.",
+   "runtime monitoring: per-step membership invariants + bounded-closure oracle over simulated fault schedules", "4/C11"),
+ "C12": (E1, "exploration",
+   "Runtime oracle: the real accrual detector (explicit-timestamp entry points) is driven with seeded arrival sequences and compared at every query with an exact-rational reference over the last W intervals; derived rules (zero at arrival, steady peers below threshold, silent peers above, eviction independence) are asserted on the same runs.",
+   "Explicit timestamps, so no wall clock in verdicts; never-heard peers only checked against the contract.",
+   "runtime monitoring: differential oracle (exact rational reference) over seeded arrival histories", "4/C12"),
+ "C13": (E1, "exploration",
+   "Three runtime monitors on the real codec and handlers: every-size encode sweep with independently computed element boundaries (fits, maximal prefix, round trip), an emission monitor on every datagram emitted in simulator runs, and hostile-input enumeration + mutation fuzzing of the packet and stream handlers in child processes (no panic, no hang, own state unchanged, still serving).",
+   "Hostile input space sampled (structured mutations + enumeration of truncation points); bounded time judged with a watchdog >=10x expected.",
+   "runtime monitoring: codec differential sweep + emission monitor + hostile-input fault injection in isolated child processes", "4/C13"),
+ "C14": (E1, "exploration",
+   "Runtime monitor: a recording watcher folds every callback into a model of the cluster; after every simulator step the model must equal the node's visible state (node set, live key/values, flags) and per-callback ordering rules must hold.",
+   "Sequential scheduler; watcher invoked under the state mutex as in production.",
+   "runtime monitoring: fold-of-notifications == visible-state oracle after every simulated step", "4/C14"),
 }
 
 NOT_YET = {
